@@ -604,6 +604,7 @@ func run(r *enumx.Run, replay *enumx.ReplayCase) {
 		"MultiReaderCloser: 1..3 sources x every (length, composition, ending incl. http.ErrBodyReadAfterClose, zero-read position, closable or not) per source x consumer {Read loop buffer 1..4 | io.ReadAll | io.Copy (WriteTo) | one Read then io.Copy (1 and 2 sources only)}; each case is observed once the stream has ended (= without a final Close) and again after Close. " +
 		"TeeReadCloser: every source as above (no ErrBodyReadAfterClose) x writer {accepts | room for T bytes then short write | room for T bytes then rejects}, T in 0..len-1 x consumer {Read loop | io.CopyBuffer, buffer 1..len+2 | io.ReadAll}. " +
 		"Operation sequences: every script of 1..4 (thorough 5) operations over {Read(1), Read(2), io.ReadFull(exactly the bytes still due), drain, io.Copy (Multi), Stop (Tee), Close, caller sets/overwrites/reverses the slice it passed as parts... (Multi)} with Close called 1..2 times at every position, Stop 0..2 times, at most one ReadFull and 1 (thorough 2) caller mutations x LimitReadCloser N 0..2 (3) over every source of length 0..N+2 | TeeReadCloser over every source of length 0..2 (3) x writer {plain, io.Closer, io.Closer failing} | NewMultiReaderCloser(parts...) over 1..2 sources of length 0..2 and 3 sources of length 0..1 (scripts of <=3, thorough <=4 operations), each source {not closable | closable | closable with a failing Close}; the clauses are evaluated after every operation. " +
+		"Huge limits: LimitReadCloser with N in {MaxInt64, MaxInt64-1, MaxInt64-2, 2^62, MaxInt32-1..MaxInt32+1, MaxUint32, MaxUint32+1, 65535, 65536} over sources of 0..4 bytes, consumer buffers {1,2,3,512,65536}, last chunk alone or with io.EOF: bytes unchanged, io.EOF, one Close. " +
 		"Every case is a distinct index tuple; non-trivial = the sources hand out at least one byte. A mid-stream error after chunk j of a longer source is the same script as the composition of its prefix ending in an error, so it is enumerated once, under the prefix length.")
 	r.Assume("sources follow the io.Reader contract (never n>len(p), sticky terminal condition); writers follow the io.Writer contract (n<len(p) only with a non-nil error)")
 	r.Assume("single goroutine; concurrent use is outside C16; after Stop or Close only the clauses that hold at every moment are judged (no foreign bytes, writer = yielded, nothing written after Stop, close counts), not what a Read on a stopped/closed stream returns")
@@ -633,6 +634,7 @@ func run(r *enumx.Run, replay *enumx.ReplayCase) {
 		delete(famDims, k)
 	}
 	samples(r)
+	runHugeFamily(r)
 	for _, f := range fams {
 		if r.Expired() {
 			r.Incomplete(f.name + ": not started, budget used up")
@@ -701,6 +703,13 @@ func doReplay(r *enumx.Run, rc *enumx.ReplayCase) {
 	var out outcome
 	var vs []viol
 	switch fam.Family {
+	case "huge":
+		var x HugeCase
+		must(json.Unmarshal(rc.Case, &x))
+		if key, msg := runHuge(x); key != "" {
+			r.Violation(key, msg, x)
+		}
+		return
 	case "limit":
 		var x LimitCase
 		must(json.Unmarshal(rc.Case, &x))
